@@ -623,6 +623,8 @@ class Pool:
 def model_lines(res: dict) -> tuple[list[str], list[str]]:
     """(driver ops, what the implementation showed for each op)"""
     c = res["cfg"]
+    if "initial" not in res:        # killed or failed before the training function was entered
+        return [], []
     ne = c["num_envs"] or 1
     nstep = c["nstep"] if c["mem"] in ("nstep", "per_nstep") else 0
     ops = [f"loop cfg {c['loop']} {c['max_steps']} {c['evo_steps']} {ne} {c['delay']} {c['cap']} {nstep} "
